@@ -23,7 +23,9 @@
 (***************************************************************************)
 EXTENDS Naturals, Sequences, FiniteSets, TLC, Json, SequencesExt
 
-CONSTANTS NNames,       \* size of the parameter-name alphabet (2: {a, b}; 3: {a, b, c})
+CONSTANTS NNames,       \* size of the parameter-name alphabet (2: {a, b}; 3: {a, b, c}; 4: {a, b, c, d})
+          KindsUsed,    \* the parameter kinds signatures are built from (all five, or {po, pk} for the 4-name family)
+          SortedNames,  \* BOOLEAN: only signatures whose names appear in alphabet order (thins the 4-name family)
           MaxLen,       \* maximal number of parameters of a signature
           MaxPos,       \* call shapes use 0..MaxPos positional arguments
           POSITIONAL,   \* _griffe.diff._POSITIONAL              (extracted from the repo)
@@ -34,14 +36,15 @@ CONSTANTS NNames,       \* size of the parameter-name alphabet (2: {a, b}; 3: {a
           Routes,       \* how the NEW Function's parameters come to exist: subset of {"visit", "inplace"}
           Emit          \* BOOLEAN: print the signature table and every pair as CASE lines
 
-NameSeq == <<"a", "b", "c">>                 \* canonical order of names
+NameSeq == <<"a", "b", "c", "d">>                \* canonical order of names
 Names == {NameSeq[i] : i \in 1..NNames}      \* the parameter-name alphabet
 None == "none"
 PO == "po"   PK == "pk"   VP == "vp"   KO == "ko"   VK == "vk"
 Kinds == {PO, PK, VP, KO, VK}
 Rank(k) == CASE k = PO -> 1 [] k = PK -> 2 [] k = VP -> 3 [] k = KO -> 4 [] OTHER -> 5
 Defaults == {None, "d1", "d2"}
-Param == [name : Names, kind : Kinds, default : Defaults]
+Param == [name : Names, kind : KindsUsed, default : Defaults]
+NameIdx(n) == CHOOSE i \in 1..Len(NameSeq) : NameSeq[i] = n
 
 \* ---- the case space: every signature CPython's grammar accepts -----------------------------
 Legal(s) ==
@@ -52,6 +55,7 @@ Legal(s) ==
                                      /\ (s[i].kind \in {PO, PK} /\ s[j].kind \in {PO, PK} /\ s[i].default # None
                                             => s[j].default # None)
   /\ \A i \in 1..Len(s) : s[i].kind \in {VP, VK} => s[i].default = None
+  /\ (SortedNames => \A i, j \in 1..Len(s) : i < j => NameIdx(s[i].name) < NameIdx(s[j].name))
 
 Sigs == UNION {{s \in [1..n -> Param] : Legal(s)} : n \in 0..MaxLen}
 SigSeq == SetToSeq(Sigs)                 \* constant: evaluated once by TLC, gives every signature an index
